@@ -147,16 +147,21 @@ func SevPolicy(ctx context.Context, endorsement *epb.VMLaunchEndorsement, opts *
 
 	var result *cpb.Policy
 	if opts.Base == nil {
-		result = &cpb.Policy{
-			Policy: abi.SnpPolicyToBytes(abi.SnpPolicy{
+		// The caller configured no guest policy: the default only stands in for an endorsement that
+		// carries none. It is not a base value for the endorsed policy to conflict with or, with
+		// overwrite, to be replaced by.
+		guestPolicy := golden.SevSnp.GetPolicy()
+		if guestPolicy == 0 {
+			guestPolicy = abi.SnpPolicyToBytes(abi.SnpPolicy{
 				ABIMinor:     0,
 				ABIMajor:     0,
 				SMT:          true,
 				MigrateMA:    true,
 				Debug:        false,
 				SingleSocket: false,
-			}),
-			MinimumVersion: "0.0"}
+			})
+		}
+		result = &cpb.Policy{Policy: guestPolicy, MinimumVersion: "0.0"}
 	} else {
 		result = proto.Clone(opts.Base).(*cpb.Policy)
 	}
